@@ -3,9 +3,11 @@
 d=$1; shift
 cd /verif
 [ -n "$(git -C /repo status --porcelain)" ] && { echo "repo dirty"; exit 2; }
+rm -rf /var/tmp/ev.bak; cp -r /verif/evidence /var/tmp/ev.bak   # evidence written while /repo is mutated must not survive
 git -C /repo apply $d || { echo "apply failed $d"; exit 2; }
 for p in "$@"; do
   out=$(./check $p 2>&1); rc=$?
   echo "$(basename $(dirname $d))/$(basename $d) $p rc=$rc :: $(echo "$out" | grep -E "VIOLATION|UNDECIDED|^OK" | head -1 | cut -c1-260)"
 done
 git -C /repo checkout -- .
+rm -rf /verif/evidence; mv /var/tmp/ev.bak /verif/evidence
